@@ -360,10 +360,7 @@ def run(ck, prog, tier):
                         if first_use.get(t_.id, ((10 ** 9, 0), False))[0] >= pos_:
                             first_use[t_.id] = (pos_, True)
     carried = sorted(n_ for n_ in stored if n_ not in known and first_use.get(n_, (None, False))[1])
-    if carried:
-        raise AnalysisError('clip_segment: the loop body reads %s before assigning it - a value '
-                            'carried over from the previous iteration, which the one-iteration '
-                            'analysis does not follow; cannot conclude' % ', '.join(carried))
+    n_viol_before = len(ck.violations)
     axes = axis_cases()
     ck.extra['order_types_per_axis'] = len(axes)
     n_cases = n_steps = 0
@@ -590,6 +587,13 @@ def run(ck, prog, tier):
                          [(o.kind, repr(o.value)[:60]) for o in outs]),
                       fn.loc(loop), key='clip_segment::after-last-pass')
         ck.floor('order types judged after the last pass', n_ep, 100)
+    if carried and len(ck.violations) == n_viol_before:
+        # what the first iteration does was judged above (violations found there are real: the
+        # first iteration starts from the prologue state); without any, the later iterations -
+        # which start from carried values - are not covered
+        raise AnalysisError('clip_segment: the loop body reads %s before assigning it - a value '
+                            'carried over from the previous iteration, which the one-iteration '
+                            'analysis does not follow; cannot conclude' % ', '.join(carried))
     n_steps = counts['steps']
     it.stack.pop()
     ck.floor('order-type pairs', n_cases, 1000)
